@@ -120,7 +120,7 @@ pub(crate) mod verif_file {
     macro_rules! c16_file {
         ($name:ident, $which:expr) => {
             #[cfg_attr(kani, kani::proof)]
-            #[cfg_attr(kani, kani::unwind(12))]
+            #[cfg_attr(kani, kani::unwind(70))]
             #[cfg_attr(kani, kani::stub(std::fs::File::open, crate::config::file::verif_file::stub_file_open))]
             #[cfg_attr(kani, kani::stub(<std::fs::File as std::io::Read>::read_to_string, crate::config::file::verif_file::stub_read_to_string))]
             #[cfg_attr(kani, kani::stub(<std::os::fd::OwnedFd as std::ops::Drop>::drop, crate::config::file::verif_file::stub_ownedfd_drop))]
